@@ -31,6 +31,13 @@ class Token:
     def __repr__(self):
         return f"<{self.name}>"
 
+    def __vf_getattr__(self, I, name):
+        if name == "to_complex":
+            return BoundBuiltin(lambda: Token(self.name + ".to_complex"))
+        if name == "to_real":
+            return BoundBuiltin(lambda: Token(self.name + ".to_real"))
+        raise Unsupported(f"attribute {name} of Token")
+
     def __vf_compare__(self, I, op, a, b):
         import ast
         same = isinstance(a, Token) and isinstance(b, Token) and a.name == b.name
